@@ -305,7 +305,7 @@ impl Property for C04 {
                 let renamed = dedup_contract(&reg, &keys, &spec, stats, &decoded)?;
                 if renamed {
                     stats.nontrivial(hash_str(&registry_json(&reg).to_string()));
-                    for l in ["two_versions", "assoc_stratum", "digit_name", "skipped_param"] {
+                    for l in ["two_versions", "assoc_stratum", "digit_name", "skipped_param", "near_miss_version", "near_miss_group_version", "near_miss_group_of_2_or_more", "recursion"] {
                         if case.gen.labels.contains(l) {
                             stats.label(l);
                         }
